@@ -241,6 +241,12 @@ def run_twin(case, late):
         d = (total - (T if between else 0)) * f if i < len(parts) - 1 else total - done
         s.simulate(d, print_summary=False)      # continuing never re-initialises (the library asserts on a second call)
         done += d
+    ids_ = [a.id for a in s._assets]
+    if len(set(ids_)) != len(ids_):
+        dup = sorted(x for x in set(ids_) if ids_.count(x) > 1)
+        raise Violation('C20.unique-id', f'registered assets share ids {dup}: '
+                        f'{[(a.name, a.id) for a in s._assets if a.id in dup]} (Asset.id is documented as unique; look-up by '
+                        f'id and pause / cancel by asset id rely on it)')
     # ---- registration (registering an asset again is a no-op: still listed once, not initialised again)
     System.add_asset(o['P'])
     System.add_asset(o['K'])
